@@ -295,22 +295,17 @@ func loadPkgs(cfg *packages.Config, patterns ...string) (map[string]*packages.Pa
 }
 
 func getGoFile(pkg *packages.Package, typeName string) string {
-	for _, obj := range pkg.TypesInfo.Defs {
-		if obj == nil {
-			continue
-		}
-
-		_, ok := obj.(*types.TypeName)
-		if !ok {
-			continue
-		}
-
-		if obj.Name() == typeName {
-			pos := pkg.Fset.Position(obj.Pos())
-			return filepath.Base(pos.Filename)
-		}
+	//only a package-level type can be meant: type parameters and function-local
+	//types of the same name must not decide (and the map order must not either)
+	if pkg.Types == nil {
+		return ""
 	}
-	return ""
+	obj, ok := pkg.Types.Scope().Lookup(typeName).(*types.TypeName)
+	if !ok || obj == nil {
+		return ""
+	}
+	pos := pkg.Fset.Position(obj.Pos())
+	return filepath.Base(pos.Filename)
 }
 
 func (g *GeneratorBase) confirmTypes(typeLister TypeLister) {
